@@ -26,6 +26,115 @@ func round2Rules() []*Rule {
 		{ID: "SQLPASS", Props: []string{"C10", "C16"}, Min: 4,
 			Doc: "the parser's constructors record what was written: an indexed column keeps its COLLATE and direction verbatim, a column definition keeps name and type",
 			Run: runSQLPass},
+		{ID: "DRV-8", Props: []string{"C19"}, Min: 1,
+			Doc: "Rows.Next hands over the whole row: every iteration of its copy loop stores column i of the received row into dest[i] (database/sql reuses dest, so a skipped column would show the previous row's value)",
+			Run: runDrv8},
+		{ID: "DRV-9", Props: []string{"C20", "C19"}, Min: 2,
+			Doc: "one handle per statement: every store into Statement.dbh is the result of a sqlittle.Open made in the same call, and Statement.Close closes that handle (result sets of one connection run their producers concurrently; a handle is not synchronised)",
+			Run: runDrv9},
+	}
+}
+
+func runDrv9(c *Ctx) {
+	p := c.P
+	stores := 0
+	for _, fn := range p.ModFuncs() {
+		for _, b := range fn.Blocks {
+			for _, in := range b.Instrs {
+				st, ok := in.(*ssa.Store)
+				if !ok {
+					continue
+				}
+				fa, ok := st.Addr.(*ssa.FieldAddr)
+				if !ok || fieldName(fa) != "dbh" || namedTypeName(fa.X.Type()) != "Statement" {
+					continue
+				}
+				stores++
+				key := "Statement.dbh store in " + p.FnKey(fn)
+				fresh := false
+				if ex, ok := st.Val.(*ssa.Extract); ok && ex.Index == 0 {
+					if call, ok := ex.Tuple.(*ssa.Call); ok {
+						if cal := call.Common().StaticCallee(); cal != nil && p.FnKey(cal) == "sqlittle.Open" {
+							fresh = true
+						}
+					}
+				}
+				c.Check(fresh, key, st.Pos(), "%s", map[bool]string{true: "the statement's handle is opened by this very call", false: "the statement's handle is not a handle opened by this call (" + st.Val.String() + "): statements would share a handle, and their producer goroutines run concurrently"}[fresh])
+			}
+		}
+	}
+	if stores == 0 {
+		c.Undecided("Statement.dbh", token.NoPos, "no store into Statement.dbh found")
+	}
+	cl := findFn(p, "(*driver.Statement).Close")
+	if cl == nil {
+		c.Undecided("anchor Statement.Close", token.NoPos, "(*driver.Statement).Close not found")
+		return
+	}
+	closes := false
+	for _, cs := range callsIn(cl) {
+		if cal := cs.Common().StaticCallee(); cal != nil && p.FnKey(cal) == "(*sqlittle.DB).Close" {
+			if ld, ok := cs.Common().Args[0].(*ssa.UnOp); ok {
+				if fa, ok := ld.X.(*ssa.FieldAddr); ok && fieldName(fa) == "dbh" {
+					closes = true
+				}
+			}
+		}
+	}
+	c.Check(closes, "Statement.Close closes its handle", cl.Pos(), "Statement.Close %s", map[bool]string{true: "closes st.dbh", false: "does not close st.dbh"}[closes])
+}
+
+func runDrv8(c *Ctx) {
+	p := c.P
+	fn := findFn(p, "(*driver.Rows).Next")
+	if fn == nil {
+		c.Undecided("anchor Rows.Next", token.NoPos, "(*driver.Rows).Next not found")
+		return
+	}
+	t := &Termer{P: p}
+	_, paths, ok := bodyPaths(p, fn, t)
+	if !ok {
+		c.Undecided("Rows.Next loop", fn.Pos(), "Rows.Next is not a single copy loop any more")
+		return
+	}
+	dest := "p:" + fn.Params[1].Name()
+	for _, lp := range paths {
+		if lp.Stop == nil {
+			continue // the loop exit
+		}
+		key := "Rows.Next copy:" + pathSig(lp, 99)
+		good := false
+		for _, e := range lp.Events {
+			st, isSt := e.Instr.(*ssa.Store)
+			if e.Kind != "store" || e.Name != "[]" || !isSt {
+				continue
+			}
+			ia, ok1 := st.Addr.(*ssa.IndexAddr)
+			sv := st.Val
+			for {
+				if ct, ok := sv.(*ssa.ChangeType); ok {
+					sv = ct.X
+				} else if mi, ok := sv.(*ssa.MakeInterface); ok {
+					sv = mi.X
+				} else {
+					break
+				}
+			}
+			ld, ok2 := sv.(*ssa.UnOp)
+			if !ok1 || !ok2 || ld.Op != token.MUL {
+				continue
+			}
+			src, ok3 := ld.X.(*ssa.IndexAddr)
+			if !ok3 || t.Term(ia.X, lp.PS) != dest || t.Term(ia.Index, lp.PS) != t.Term(src.Index, lp.PS) {
+				continue
+			}
+			if ex, ok := src.X.(*ssa.Extract); ok && ex.Index == 0 {
+				if rc, ok := ex.Tuple.(*ssa.UnOp); ok && rc.Op == token.ARROW {
+					good = true
+				}
+			}
+		}
+		c.Check(good, key, fn.Pos(), "an iteration of the copy loop on path [%s] %s", pathDesc(lp), map[bool]string{true: "stores row[i] into dest[i]", false: "does not store row[i] into dest[i]: dest keeps the previous row's value there"}[good])
 	}
 }
 
@@ -319,5 +428,46 @@ func runSQLPass(c *Ctx) {
 			}
 		}
 		c.Check(ok1 && ok2, "makeColumnDef name/type", fn.Pos(), "a column definition keeps the name and type that were written")
+	}
+}
+
+func glueRule() *Rule {
+	return &Rule{ID: "GLUE", Props: []string{"C01", "C02", "C03", "C04", "C08", "C19"}, Min: 24,
+		Doc: "wiring functions route the right values: the error-free event sequences of the select/open/lookup glue (which table, which columns, which rowid, which callback, which key) equal the confirmed table",
+		Run: runGlue}
+}
+
+func runGlue(c *Ctx) {
+	p := c.P
+	for _, name := range sortedKeys(glueTable) {
+		want := glueTable[name]
+		fn := findFn(p, name)
+		if fn == nil {
+			c.Undecided("anchor "+name, token.NoPos, "wiring function %s not found", name)
+			continue
+		}
+		got := cleanSeqs(p, fn)
+		ws := map[string]bool{}
+		for _, w := range want {
+			ws[w] = true
+		}
+		var extra, missing []string
+		gs := map[string]bool{}
+		for _, g := range got {
+			gs[g] = true
+			if !ws[g] {
+				extra = append(extra, g)
+			}
+		}
+		for _, w := range want {
+			if !gs[w] {
+				missing = append(missing, w)
+			}
+		}
+		if len(extra) == 0 && len(missing) == 0 {
+			c.Pass(name, fn.Pos(), "%d error-free sequence(s) as confirmed", len(got))
+			continue
+		}
+		c.Fail(name, fn.Pos(), "the values this function routes changed: now [%s]; confirmed [%s]", strings.Join(extra, " | "), strings.Join(missing, " | "))
 	}
 }
